@@ -631,6 +631,49 @@ SPECS += [
      replace_expr_where("_PythonCodeAssist._find_starting_offset", _is("worder.is_identifier_char(source_code[current_offset])"),
                         _expr("(source_code[current_offset].isalnum() or source_code[current_offset] in '_')")), ["R20.13"]),
 ]
+# ---- round 13: the repairs of the defects the hunters found, undone one at a time
+def _drop_keywords(names):
+    def make(n):
+        return ast.Call(func=n.func, args=n.args, keywords=[k for k in n.keywords if k.arg not in names])
+    return make
+
+
+SPECS += [
+    ("C07", "import-on-a-shared-line-managed-again", "rope/refactor/importutils/module_imports.py",
+     replace_expr_where("_GlobalImportFinder.find_import_statements", _is("self._shares_its_line(nodes, index)"), _expr("False")), ["R07.17"]),
+    ("C08", "try-finally-forgets-else", "rope/refactor/patchedast.py",
+     remove_stmt_where("_PatchingASTWalker._TryFinally", stmt_is("if node.orelse")), ["R08.2"]),
+    ("C13", "structure-observer-without-moved-removed", "rope/base/pycore.py",
+     replace_expr_where("PyCore._init_resource_observer", lambda n: isinstance(n, ast.Call) and len(n.keywords) == 4 and ast.unparse(n.func).endswith("ResourceObserver"),
+                        _drop_keywords({"moved", "removed"})), ["R13.15"]),
+    ("C16", "first-coding-word-only", "rope/base/fscommands.py",
+     replace_expr_where("_find_coding", lambda n: isinstance(n, ast.While), lambda n: ast.If(test=n.test, body=[ast.Return(value=None)], orelse=[])), ["R16.12"]),
+    ("C17", "augmented-write-without-parentheses", "rope/refactor/encapsulate_field.py",
+     remove_stmt_where("_FindChangesForModule._manage_writes", stmt_is("if self.is_augmented_set and")), ["R17.11"]),
+    ("C11", "dependency-by-resource-equality", "rope/base/history.py",
+     replace_expr_where("_FindChangeDependencies._depends_on", _is("self._overlap(resource.path, changed.path)"), _expr("resource == changed")), ["R11.13"]),
+    ("C14", "escaped-triple-quote-skipped-whole", "rope/base/codeanalyze.py",
+     remove_stmt_where("_CustomGenerator._analyze_line", stmt_is("position = match.start(2) + 1")), ["R14.18"]),
+    ("C09", "ignored-defining-module-rewritten", "rope/refactor/inline.py",
+     replace_expr_where("InlineVariable.get_changes", _is("self.project.is_ignored(self.resource)"), _expr("False")), ["R09.5"]),
+    ("C12", "folder-move-reloaded-with-get_file", "rope/base/change.py",
+     replace_expr_where("DataToChange.makeMoveResource", _is("self.project.get_folder(old_path)"), _expr("self.project.get_file(old_path)")), ["R12.14"]),
+    ("C19", "elif-clause-offered-to-the-matcher", "rope/refactor/similarfinder.py",
+     replace_expr_where("_ASTMatcher._check_statements", _is("self._is_elif_clause(node, child)"), _expr("False")), ["R19.13"]),
+    ("C03", "loop-carried-check-ignores-earlier-reads", "rope/refactor/extract.py",
+     replace_expr_where("_FunctionInformationCollector._written_variable", _is("name in self.read or name in self.loop_preread"), _expr("name in self.read")), ["R03.17"]),
+    ("C04", "second-call-in-a-line-not-refused", "rope/refactor/inline.py",
+     remove_stmt_where("_InlineFunctionCallsForModuleHandle.occurred_outside_skip", stmt_is("if start_line in self.rewritten_lines")), ["R04.8"]),
+    ("C20", "dot-position-not-looked-at", "rope/base/worder.py",
+     remove_stmt_where("_RealFinder.get_splitted_primary_before", stmt_is("if self.code[last_dot_position] != '.'")), ["R20.14"]),
+    ("C06", "surplus-positionals-slide", "rope/refactor/functionutils.py",
+     replace_expr_where("ArgumentMapping.to_call_info", lambda n: isinstance(n, ast.If) and ast.unparse(n.test) == "self.args_arg",
+                        lambda n: ast.If(test=ast.Constant(value=False), body=n.body, orelse=n.orelse)), ["R06.12"]),
+    ("C02", "header-expression-in-own-scope", "rope/base/evaluate.py",
+     remove_stmt_where("ScopeNameFinder.get_primary_and_pyname_at", stmt_is("if self._is_in_header_expression(holding_scope, offset)")), ["R02.21"]),
+    ("C01", "header-expression-in-own-scope", "rope/base/evaluate.py",
+     remove_stmt_where("ScopeNameFinder.get_primary_and_pyname_at", stmt_is("if self._is_in_header_expression(holding_scope, offset)")), ["R01.16"]),
+]
 SPECS = [s for s in SPECS if s[3] is not None]  # (entries without an AST edit are covered by their kept seed)
 
 SPECS = [s for s in SPECS if s[1] != "tab-to-four-spaces"]
